@@ -72,6 +72,61 @@ fn c16_decode_matches_spec() {
     kani::cover!(res.is_ok() && len == 9);
 }
 
+/// A `Buf` over at most nine bytes that hands them out in chunks cut at arbitrary (symbolic) places: a cut follows byte
+/// `i` iff bit `i` of `cuts` is set.  `chunk()` is never empty while bytes remain (the `Buf` contract).
+struct Chunked<'a> {
+    data: &'a [u8],
+    pos: usize,
+    cuts: u16,
+}
+impl<'a> Buf for Chunked<'a> {
+    fn remaining(&self) -> usize {
+        self.data.len() - self.pos
+    }
+    fn chunk(&self) -> &[u8] {
+        let mut end = self.pos;
+        while end < self.data.len() {
+            end += 1;
+            if (self.cuts >> (end - 1)) & 1 == 1 {
+                break;
+            }
+        }
+        &self.data[self.pos..end]
+    }
+    fn advance(&mut self, cnt: usize) {
+        assert!(cnt <= self.data.len() - self.pos);
+        self.pos += cnt;
+    }
+}
+
+// vp: props=C16,C06,C02,C18,C04; tag=C16.decode.chunked; kind=complete; tier=quick
+// the same claim as c16_decode_matches_spec for a buffer that is not contiguous: every way of cutting the (at most
+// nine) bytes into chunks — 2^9 cut patterns, symbolic — gives the RFC value, consumes exactly the encoding's length,
+// reports a truncated encoding and never panics.  This is the contract the Verus units assume of `VarInt::decode` for an
+// arbitrary `Buf` (BufList / Cursor / Take); complete: decode reads <= 8 bytes.
+#[kani::proof]
+#[kani::unwind(11)]
+fn c16_decode_any_chunking() {
+    let arr: [u8; 9] = kani::any();
+    let len: usize = kani::any();
+    kani::assume(len <= 9);
+    let cuts: u16 = kani::any();
+    let mut r = Chunked { data: &arr[..len], pos: 0, cuts };
+    let res = VarInt::decode(&mut r);
+    match spec_varint_dec(&arr[..len]) {
+        Some((v, n)) => {
+            assert!(res == Ok(VarInt(v)));
+            assert!(r.pos == n);
+        }
+        None => {
+            assert!(res.is_err());
+        }
+    }
+    kani::cover!(res.is_ok() && len == 9 && cuts & 0xff == 0xff); // one-byte chunks
+    kani::cover!(res.is_ok() && r.pos == 8 && cuts & 0xff == 0b0100_0100); // three chunks inside an 8-byte form
+    kani::cover!(res.is_err() && len == 3 && cuts == 0b010);
+}
+
 // vp: props=C16; tag=C16.bounds; kind=complete; tier=quick
 // the checked constructors refuse exactly the values >= 2^62
 #[kani::proof]
